@@ -473,7 +473,8 @@ def must_checks(C, P):
     if not nx or not eof_idx or not cut:
         C.anchor_missing('C08-MUST-checks', 'verify_end_of_input: lexer.next / test for the EndOfFile event')
     else:
-        ok = must_pass(ve, nx[0], voks, oe, avoid_edges=cut, include_start=False) if voks else True
+        # (flag-sensitive: `if matches!(event, EndOfFile) { return Ok(()) }` first materialises the bool)
+        ok = must_pass(ve, nx[0], voks, oe, avoid_edges=cut, include_start=False, precise=True) if voks else True
         ret_other = [pos for pos, t in ve.iter_calls() if t['dst']['l'] == 0 and not t['dst']['p'] and not call_matches(t, r'optional_error$|from_residual$')]
         C.check(ok and not ret_other, 'C08-MUST-checks', 'verify_end_of_input|ok-only-for-EOF-or-after-report', 'verify_end_of_input can return Ok for an event other than EndOfFile without passing optional_error(AdditionalDataError)',
                 ve.where(voks[0]) if voks else '', sample={'fn': 'verify_end_of_input', 'ok_exits': len(voks), 'must_pass': 'optional_error unless the event is EndOfFile'})
